@@ -6,8 +6,13 @@ import Stun.Model.Client
 namespace Stun.Driver
 open Stun
 
+/-- the attribute list of the Message object a handler is handed: what the reader's `ReadFrom` left in it -/
+def showMsgAttrs (raw : Bytes) : String :=
+  let as := (Client.readerMsg.readFrom raw).1.attrs
+  s!"a{as.length}" ++ String.join (as.map (fun a => s!".{a.typ}-{a.length}-{a.val.length}"))
+
 def showCEv : CEv → String
-  | .msg raw => s!"msg:{showHex raw}" | .timeout => "timeout" | .agentClosed => "agent-closed" | .stopped => "stopped"
+  | .msg raw => s!"msg:{showHex raw}/{showMsgAttrs raw}" | .timeout => "timeout" | .agentClosed => "agent-closed" | .stopped => "stopped"
   | .writeErr => "write-err" | .exists => "exists" | .stopErr => "stop-err"
 
 def showCErr : Option CErr → String
@@ -39,7 +44,21 @@ def stepClient (c : Client) (toks : List String) : Option (Client × String) :=
   | ["CL", "clock", t] => let r := c.step (.clock (nat! t)); some (r.1, "ok")
   | ["CL", "failwrite", id] => let r := c.step (.failWrite (hex! id)); some (r.1, "ok")
   | ["CL", "setrto", r] => let x := c.step (.setRTO (nat! r)); some (x.1, "ok")
-  | ["CL", "close"] => let r := c.step .close; some (r.1, s!"ret={showCErr r.2.1} {showOuts r.2.2}")
+  | ["CL", "close"] => let r := c.step .close; some (r.1, s!"ret={showCErr r.2.1} {showOuts r.2.2} reader=exited")
+  -- `Do`: Start with a waiting handler; the response arrives while the request is being written
+  | ["CL", "do", id, raw, resp, h] =>
+    let r := c.step (.start (hex! id) (hex! raw) (some (nat! h)))
+    match r.2.1 with
+    | some e => some (r.1, s!"ret={showCErr (some e)} {showOuts r.2.2} do=none")
+    | none =>
+      let r2 := r.1.step (.deliver (hex! resp))
+      some (r2.1, s!"ret=ok {showOuts (r.2.2 ++ r2.2.2)} do=after-callback")
+  -- several goroutines race Close with Start / Indicate / SetRTO: exactly one Close takes effect
+  | ["CL", "conc", _, _] =>
+    let r := c.step .close
+    let ok := if r.2.1 == some .clientClosed then 0 else 1
+    let cc := (r.2.2.filter (fun o => o == .connClose)).length
+    some (r.1, s!"closes={ok} connclose={cc} reader=exited")
   | _ => none
 
 end Stun.Driver
